@@ -14,6 +14,7 @@ import (
 	"fmt"
 	"os"
 	"path/filepath"
+	"regexp"
 	"sort"
 	"strings"
 	"testing"
@@ -31,7 +32,15 @@ import (
 
 var verifChecks = map[string]vt.Check{}
 
-func TestVerif(t *testing.T) { vt.Main(t, verifChecks) }
+func TestVerif(t *testing.T) {
+	if os.Getenv("VERIF_OUT") != "" {
+		// the CLI code prints to stdout; the worker's result goes to VERIF_OUT
+		if f, err := os.OpenFile(os.DevNull, os.O_WRONLY, 0); err == nil {
+			os.Stdout = f
+		}
+	}
+	vt.Main(t, verifChecks)
+}
 
 const vns = "/test"
 
@@ -72,6 +81,7 @@ type H struct {
 	hc      map[*App]*hcState
 	LogPath string // replay: daemon log goes here at debug level
 	dead    []*App
+	clis    []*App
 }
 
 type hcState struct {
@@ -109,6 +119,9 @@ func (h *H) teardown() {
 	}
 	for _, a := range h.dead {
 		h.closeApp(a)
+	}
+	for _, a := range h.clis {
+		a.loggerCloser.Close()
 	}
 	vsignal.Deliver("")
 	vsqlx.CloseAll()
@@ -472,7 +485,60 @@ func treeFilter(path string, data []byte) (string, bool) {
 	if strings.HasPrefix(path, vns+"/timing") {
 		return "", false
 	}
-	return string(data), true
+	// absolute virtual timestamps -> age in seconds, so that histories differing only in when
+	// things happened merge when the ages agree
+	d := vTimeRe.ReplaceAllStringFunc(string(data), func(m string) string {
+		t, err := time.Parse(time.RFC3339Nano, strings.Trim(m, `"`))
+		if err != nil || t.Year() < 1999 {
+			return m
+		}
+		return fmt.Sprintf(`"T-%d"`, int(time.Since(t).Seconds()))
+	})
+	return d, true
+}
+
+var vTimeRe = regexp.MustCompile(`"\d{4}-\d\d-\d\dT\d\d:\d\d:\d\d(\.\d+)?Z"`)
+
+// NewCLI creates a mysync command-line process on host (NewApp only; the Cli* method connects).
+func (h *H) NewCLI(host string) (*App, string) {
+	h.inc["cli"]++
+	id := fmt.Sprintf("cli%d.%s", h.inc["cli"], host)
+	h.W.AddProc(id, host)
+	cfg := h.configFile(id, host)
+	saved := os.Stderr
+	sink, err := os.OpenFile(os.DevNull, os.O_WRONLY, 0)
+	if err != nil {
+		h.T.Fatalf("open log sink: %v", err)
+	}
+	os.Stderr = sink
+	a, err := NewApp(cfg, "fatal", true)
+	os.Stderr = saved
+	if err != nil {
+		h.T.Fatalf("NewApp: %v", err)
+	}
+	h.ids[a] = id
+	h.clis = append(h.clis, a)
+	return a, id
+}
+
+// RunCLI runs a Cli* method of a fresh command-line process under the scheduler.
+func (h *H) RunCLI(host string, f func(a *App) int) int {
+	a, id := h.NewCLI(host)
+	rc := -1
+	h.W.Step(id, func() { rc = f(a) })
+	return rc
+}
+
+// Replace kills the mysync of host and starts a fresh one after its session expired.
+func (h *H) Replace(host string) *App {
+	if a := h.Apps[host]; a != nil {
+		id := h.ids[a]
+		h.W.Crash(id)
+		for _, zc := range h.W.Procs[id].ZK {
+			h.W.ZK.Expire(zc)
+		}
+	}
+	return h.Start(host)
 }
 
 // AppState renders the internal state of an App that influences its future behaviour.
